@@ -17,7 +17,7 @@ def observe (env : Env) (n m : Nat) : String :=
   | .ok _ => "same"
   | .error _ => "err"
 
-def c18Line (line : String) : String :=
+partial def c18Line (line : String) : String :=
   match tokens line with
   | ["clean", _, _, _, _, _] => "same"
   | ["clean-s", _, _, _, _, _] => "same"
@@ -26,13 +26,16 @@ def c18Line (line : String) : String :=
     | some k, some n => observe ⟨some k, fun _ => .valid⟩ n 0
     | _, _ => "bad-op"
   | ["args", _, _, _, _, _] => "ok"
+  | ["mergeblk", _, _, _, _, _] => "ok"
   | ["cancel", _, _, _, _, _, k, n] =>
     match k.toNat?, n.toNat? with
     | some k, some n => observe ⟨some k, fun _ => .valid⟩ n 0
     | _, _ => "bad-op"
+  | ["engine-nv", a, b, c, d, e, j, m, v] => c18Line (" ".intercalate ["engine", a, b, c, d, e, j, m, v])
   | ["engine", _, _, _, _, _, j, m, v] =>
     match j.toNat?, m.toNat?, (match v with
         | "valid" => some Verdict.valid | "invalid" => some Verdict.invalid | "error" => some Verdict.error
+        | "ctxerror" => some Verdict.error
         | _ => none) with
     | some j, some m, some v => observe ⟨none, fun i => if i = j then v else .valid⟩ 0 m
     | _, _, _ => "bad-op"
